@@ -15,7 +15,7 @@ var decidesExtra = map[string]string{
 	"C10": " Every access to a struct-keyed cache of scheme/reg builds its key with the same fields. A filtered query builds its answer in fresh storage; every ReferrerList call of the client is answered by a scheme call made by that very call.",
 	"C11": " No code outside package config stores TLSDisabled into a host entry. The existence test of BlobCopy does not offer the target's login to the hosts named in a layer's external URLs.",
 	"C12": " The blob GET declares the expected length so that a truncated body is resumed. A transport failure is retried on the same host after the backoff.",
-	"C13": " A push by digest into a layout cannot replace the untagged entries of other images.",
+	"C13": " A push by digest into a layout cannot replace the untagged entries of other images. Where the diff-id digester is fed by a tee and the stream goes on to the compressor, nothing sits between the two.",
 	"C14": " The target is asked before the source manifest is fetched, on every path; the layout resolves the target tag exactly. The layout's existence tests follow links as its reads do.",
 	"C16": " A platform parsed from a request is handed on, not dropped. A value remembered by a per-image step does not depend on the image it was computed for.",
 	"C17": " No function of scheme/reg sends another request while a response it obtained is still open. A sync.Map of queues is only filled with LoadOrStore.",
